@@ -68,6 +68,9 @@ def simple_rel(draw, names, doms, kinds, min_arity=0, name="r"):
         r["decoy_when"] = draw(st.sampled_from(["never", "before", "after", "after", "after-sliced"]))
     elif kind in ("pyfunc", "partial"):
         args = ["p%d" % i for i in range(len(scope))]
+        if len(scope) >= 2 and draw(st.integers(0, 2)) == 0:
+            # parameters named like the variables, in another order: the function is still bound by position
+            args = list(draw(st.permutations(scope)))
         r["args"] = args
         r["expr"] = gen.int_expression(draw, args)
         if kind == "partial":
